@@ -86,6 +86,10 @@ def lattice_c03(ctx):
     f1 = y[0] ** 2 - 3 * y[0] + 4 + y[0] ** -1
     g1 = np.linspace(-4, 3, 14001)
     insts.append(('e^{2x}-3e^x+4+e^{-x}', f1, 1, [(float(f1(np.array([t]))), np.array([t])) for t in g1], [2 - y[0], y[0] - 0.25], (0, 1, 2)))
+    # the domain is ACTIVE here: the minimum over the box [log 3, log 8] (6, at the left end) is far above the minimum over R (-1/4)
+    fa = y[0] ** 2 - y[0]
+    ga = np.linspace(math.log(3.0), math.log(8.0), 4001)
+    insts.append(('e^{2x}-e^x (box active)', fa, 1, [(float(fa(np.array([t]))), np.array([t])) for t in np.linspace(-4, 3, 7001)], [8 - y[0], y[0] - 3], (0, 1)))
     y2 = so.standard_sig_monomials(2)
     f2 = y2[0] ** 2 + y2[1] ** 2 - y2[0] * y2[1] + y2[0] ** -1 + 0.5 * y2[1] ** -1
     g2 = np.linspace(-2.5, 2.0, 181)
@@ -143,7 +147,10 @@ def lattice_c04(ctx):
     gts1 = [y[0] - 1.5, 3 - y[0]]
     g1 = np.linspace(-1, 2, 6001)
     insts.append(('min e^x + e^{-2x} s.t. 1.5 <= e^x <= 3', f1, gts1, [], [np.array([t]) for t in g1],
-                  [(0, 1, 0), (1, 1, 0), (0, 2, 0), (0, 1, 1), (1, 2, 0), (1, 1, 1)]))
+                  [(0, 1, 0), (1, 1, 0), (0, 2, 0), (0, 1, 1), (1, 2, 0), (1, 1, 1), (0, 1, 2)]))
+    fq = y[0] ** 2 - 3 * y[0] + 3
+    insts.append(('min e^{2x} - 3e^x + 3 s.t. 0.5 <= e^x <= 2', fq, [y[0] - 0.5, 2 - y[0]], [], [np.array([t]) for t in np.linspace(math.log(0.5), math.log(2.0), 4001)],
+                  [(0, 1, 0), (0, 1, 1), (0, 1, 2), (1, 1, 0)]))
     y2 = so.standard_sig_monomials(2)
     f2 = y2[0] + y2[1] - 0.3 * y2[0] * y2[1]
     gts2 = [y2[0] - 0.2, y2[1] - 0.2, 4 - y2[0] ** 2 - y2[1] ** 2]
